@@ -60,6 +60,28 @@ CHECKS = {
         "Trusted: analytic derivatives of cosines, numpy FFT for the independent Poisson residual. Bounds on N and the L lattice.",
         "DESIGN.md §4 C05",
     ),
+    "C09": (
+        "bounded exhaustive exploration: BFS chains from ternary/basis/superposition state lattices for the mean; complete simplex lattice Lambda_3 for the cubic no-work forms; root x order x dt chains for equilibria",
+        "(a) every listed conservation-form stepper x order x D x odd/even N is stepped 1..5 times from all 3^N ternary states (smallest 1D grids), "
+        "every real Fourier basis function incl. Nyquist/out-of-band modes, and superpositions; the per-channel mean must not move in any visited "
+        "state; the k=0 coefficient of every conservation-form term vanishes on the simplex lattice of the basis (polynomial lift => all states). "
+        "(b) <u,N(u)>, <psi,N(omega)>, <omega,N(omega)> are cubic forms evaluated on the complete lattice Lambda_3 of the basis up to one mode beyond "
+        "the documented band (=> all band-limited states, and a too-wide band is caught). (c) every constant root of the reaction/convection "
+        "right-hand sides x orders 1-4 x dt x 4-step chains must be a fixed point.",
+        "Trusted: closed-form roots, own solenoidal projector. Carve-outs forced by the mathematics are listed in evidence.assumptions (forms that "
+        "conserve the mean, divergence-free states for the 3D forms, drag=0).",
+        "DESIGN.md §4 C09",
+    ),
+    "C10": (
+        "bounded exhaustive exploration: full vector Fourier basis for the linear projections, simplex lattice Lambda_2 for the quadratic convection term, BFS chains for the steppers",
+        "Leray and make_incompressible are applied to every (Nyquist-free basis function x channel) for D=2,3, odd/even N and L in {1, 2pi, 0.5}: value "
+        "against an own projector, zero spectral divergence, idempotence, identity on an independently built divergence-free basis, mutual agreement. "
+        "The divergence of ProjectedConvection3d's output is a quadratic map that vanishes on Lambda_2 of the retained-band vector basis and on v+e for "
+        "every out-of-band/Nyquist vector e, hence for every input. NavierStokesVelocity and KolmogorovFlowVelocity are chained 5 steps from "
+        "divergence-free states for orders 1-4 and a parameter lattice with the divergence checked in every visited state.",
+        "Trusted: own wavenumber layout and projector (numpy). Bounds on N.",
+        "DESIGN.md §4 C10",
+    ),
     "C11": (
         "bounded exhaustive exploration: the complete operator matrix from all grid deltas (linearity lift), SVD / Gram-matrix oracles",
         "For every linear stepper variant with non-amplifying coefficients, D=1..3, odd/even N, three domain extents and dt up to 1e6, the stepper is "
